@@ -118,6 +118,9 @@ pub struct WalWriter {
     entry_count: usize,
     bytes_written: u64,
     error_handler: Option<Arc<WalErrorHandler>>,
+    /// Set when a failed append could not be rolled back: the file may end in a partial frame,
+    /// so nothing more may be appended (and acknowledged) behind it.
+    poisoned: bool,
 }
 
 impl WalWriter {
@@ -157,6 +160,7 @@ impl WalWriter {
             entry_count: 0,
             bytes_written: 4, // Magic header
             error_handler,
+            poisoned: false,
         })
     }
 
@@ -198,11 +202,16 @@ impl WalWriter {
         stable_offset: u64,
         stable_entry_count: usize,
     ) -> Result<()> {
+        self.ensure_not_poisoned()?;
         match self.append_internal(entry) {
             Ok(()) => Ok(()),
             Err(write_err) => {
                 let write_err_msg = write_err.to_string();
                 self.rollback_to_stable_state(stable_offset, stable_entry_count)
+                    .map_err(|e| {
+                        self.poisoned = true;
+                        e
+                    })
                     .with_context(|| {
                         format!(
                             "WAL write failed ({}); rollback to offset {} failed",
@@ -212,6 +221,18 @@ impl WalWriter {
                 Err(write_err)
             }
         }
+    }
+
+    /// A failed append whose rollback also failed may have left a partial frame at the end of
+    /// the file. Appending (and acknowledging) further entries behind it would make them
+    /// unrecoverable under strict replay, so the writer refuses until the segment is reopened.
+    fn ensure_not_poisoned(&self) -> Result<()> {
+        anyhow::ensure!(
+            !self.poisoned,
+            "WAL writer for {} is poisoned: an earlier failed append could not be rolled back",
+            self.path.display()
+        );
+        Ok(())
     }
 
     fn write_entry(&mut self, entry: &WalEntry) -> Result<()> {
@@ -319,11 +340,16 @@ impl WalWriter {
         stable_offset: u64,
         stable_entry_count: usize,
     ) -> Result<()> {
+        self.ensure_not_poisoned()?;
         match self.append_batch_internal(entries) {
             Ok(()) => Ok(()),
             Err(write_err) => {
                 let write_err_msg = write_err.to_string();
                 self.rollback_to_stable_state(stable_offset, stable_entry_count)
+                    .map_err(|e| {
+                        self.poisoned = true;
+                        e
+                    })
                     .with_context(|| {
                         format!(
                             "WAL batch write failed ({}); rollback to offset {} failed",
